@@ -19,11 +19,18 @@ Ltac trig_ring := match goal with
   | H1 : _ * _ = 1 - _ |- _ => first [ring [H1] | field [H1] | (field_simplify_eq; ring [H1])]
   end.
 Ltac solve_entry := first [ field | ring | trig_ring | lazymatch goal with |- ?a = ?a => reflexivity end ].
+Ltac pc_zero := intros; autounfold with gen; ops_R; trig_abs; repeat split;
+  (let H := fresh "H" in intro H;
+   match type of H with ?b < ?a =>
+     let E := fresh "E" in assert (E : a = 0) by solve_entry; rewrite E in H; lra end).
 Ltac law := intros; unfold halves_eq; autounfold with gen; ops_R; cbn [firstn skipn]; trig_abs; list_eq solve_entry.
 
 Lemma law_roundtrip_lin s0 s1 s2 s3 :
   halves_eq 4 (roundtrip_lin (OO:=ROps) s0 s1 s2 s3).
 Proof. law. Qed.
+
+Lemma pc_roundtrip_lin s0 s1 s2 s3 : roundtrip_lin_pc (OO:=ROps) s0 s1 s2 s3.
+Proof. pc_zero. Qed.
 
 Lemma law_roundtrip_natural_lin s0 s1 s2 s3 :
   halves_eq 4 (roundtrip_natural_lin (OO:=ROps) s0 s1 s2 s3).
@@ -37,6 +44,9 @@ Lemma law_roundtrip_circ s0 s1 s2 s3 :
   halves_eq 4 (roundtrip_circ (OO:=ROps) s0 s1 s2 s3).
 Proof. law. Qed.
 
+Lemma pc_roundtrip_circ s0 s1 s2 s3 : roundtrip_circ_pc (OO:=ROps) s0 s1 s2 s3.
+Proof. pc_zero. Qed.
+
 Lemma law_roundtrip_natural_circ s0 s1 s2 s3 :
   halves_eq 4 (roundtrip_natural_circ (OO:=ROps) s0 s1 s2 s3).
 Proof. law. Qed.
@@ -48,6 +58,9 @@ Proof. law. Qed.
 Lemma law_roundtrip_ell o e s0 s1 s2 s3 :
   halves_eq 4 (roundtrip_ell (OO:=ROps) o e s0 s1 s2 s3).
 Proof. law. Qed.
+
+Lemma pc_roundtrip_ell o e s0 s1 s2 s3 : roundtrip_ell_pc (OO:=ROps) o e s0 s1 s2 s3.
+Proof. pc_zero. Qed.
 
 Lemma law_roundtrip_natural_ell o e s0 s1 s2 s3 :
   halves_eq 4 (roundtrip_natural_ell (OO:=ROps) o e s0 s1 s2 s3).
